@@ -420,6 +420,38 @@ async fn blank_case(pki: &Pki, servers: &[Server], c: &[u64]) -> Vec<u64> {
             let r = make_tls_identity(&p(d, "srv0.pem"), &p(d, "srv0.key"), Some(&blank)).await;
             vec![u64::from(r.is_ok())]
         }
+        // a client CA that is configured but cannot be loaded (no such file, a directory, a damaged PEM body): no identity
+        // (a server that went on without client authentication would admit everybody)
+        4..=6 => {
+            let path = match c[0] {
+                4 => p(d, "no-such-ca.pem"),
+                5 => d.to_str().unwrap().to_string(),
+                _ => {
+                    let bad = p(d, "damaged-ca.pem");
+                    std::fs::write(&bad, b"-----BEGIN CERTIFICATE-----\nTUlJ@@@@not base64@@@@\n-----END CERTIFICATE-----\n").unwrap();
+                    bad
+                }
+            };
+            let r = make_tls_identity(&p(d, "srv0.pem"), &p(d, "srv0.key"), Some(&path)).await;
+            vec![u64::from(r.is_ok())]
+        }
+        // the same on a reload: it fails, the identity (with its client CA) stays, a client without certificate stays out
+        7 => {
+            let (certp, keyp, cap) = (p(d, "rl7.pem"), p(d, "rl7.key"), p(d, "rl7-ca.pem"));
+            std::fs::copy(d.join("srv0.pem"), &certp).unwrap();
+            std::fs::copy(d.join("srv0.key"), &keyp).unwrap();
+            std::fs::copy(d.join("clientca.pem"), &cap).unwrap();
+            let Ok(identity) = make_tls_identity(&certp, &keyp, Some(&cap)).await else { return vec![9, 9] };
+            let listener = TcpListener::bind("127.0.0.1:0").await.unwrap();
+            let port = listener.local_addr().unwrap().port();
+            let state = rusty_penguin_lib::server::State::new().await.expect("state");
+            let task = tokio::spawn(rusty_penguin_lib::server::run_listener(listener, Some(identity.clone()), state));
+            std::fs::remove_file(&cap).unwrap();
+            let r = reload_tls_identity(&identity, &certp, &keyp, Some(&cap)).await;
+            let bare = get(None, None, port).await;
+            task.abort();
+            vec![u64::from(r.is_ok()), bare]
+        }
         _ => vec![get(Some(p(d, "rootA.pem")), Some((p(d, "cli3.pem"), p(d, "cli3.key"))), servers[1].port).await],
     }
 }
@@ -549,7 +581,7 @@ impl Ctx {
                 self.n.set(self.n.get() + 1);
                 self.rt.block_on(signal_case(&self.pki, &format!("s{}", self.n.get()), &c[1..]))
             }
-            Some(4) if c.len() == 3 && c[1] < 4 => self.rt.block_on(blank_case(&self.pki, &self.servers, &c[1..])),
+            Some(4) if c.len() == 3 && c[1] < 8 => self.rt.block_on(blank_case(&self.pki, &self.servers, &c[1..])),
             Some(3) if c.len() == 5 => self.rt.block_on(name_case(&self.pki, &self.servers[0], self.echo_port, &c[1..])),
             _ => vec![999_999],
         }
@@ -589,7 +621,7 @@ pub fn generate(a: &Args, out: &mut Out) {
         let r = ctx.run_case(&c[1..]);
         out.emit(&c, &r);
     }
-    for which in 0..4u64 {
+    for which in 0..8u64 {
         for sk in 0..2u64 {
             let c = vec![17, 4, which, sk];
             let r = ctx.run_case(&c[1..]);
